@@ -903,14 +903,18 @@ class Component(composites.Composite, metaclass=ComponentType):
         mass : float
             The mass in grams.
         """
-        volume = self.getVolume() / (
-            self.parent.getSymmetryFactor() if self.parent else 1.0
-        )
+        volume = self._getVolumeInModel()
         nuclideNames = self._getNuclidesFromSpecifier(nuclideNames)
         # densities comes from self.p.numberDensities
         densities = self.getNuclideNumberDensities(nuclideNames)
         nDens = {nuc: dens for nuc, dens in zip(nuclideNames, densities)}
         return densityTools.calculateMassDensity(nDens) * volume
+
+    def _getVolumeInModel(self):
+        """Volume of the component that is inside the model: reduced by the symmetry factor of its block."""
+        return self.getVolume() / (
+            self.parent.getSymmetryFactor() if self.parent else 1.0
+        )
 
     def setDimension(self, key, val, retainLink=False, cold=True):
         """
